@@ -6,6 +6,7 @@
 (*      "CleanupStep"|"CleanupDone"|"AcceptCall"|"RunningSet"|"CloseBegin"| *)
 (*      "CloseEnd"|"AcceptRet"|"Sigint"|"ShutdownCall"|"ShutdownRet"|       *)
 (*      "ExecCall"|"XStart"|"XEnd"|"ExecRet"|"SegEnter"|"SegExit"|"Block"|  *)
+(*      "ExecAborted"|"ExecRefused"|"SvcLoopExit"|                          *)
 (*      "Quiescent"|"Timeout", ...fields}                                   *)
 (* The state after an event is the OBSERVED state; nc records whether the   *)
 (* step is one the specification's action allows.  Properties that need     *)
@@ -153,6 +154,11 @@ TExecRet == /\ Ev.e = "ExecRet" /\ xst' = [xst EXCEPT ![Ev.x] = "returned"]
             /\ xobs' = [xobs EXCEPT ![Ev.x].same = Ev.same]
             /\ UNCHANGED <<phase, guard, pst, starts, endhow, cleanleft, adoptret, sigint, shut, result, h, where, segopen, marks>>
             /\ nc' = (nc \/ ~ExecRet(Ev.x))
+\* the caller of an execute() whose payload had started and never ended is released with an
+\* exception because the runtime terminates (no outcome of the payload exists to compare)
+TExecAborted == /\ Ev.e = "ExecAborted" /\ xst' = [xst EXCEPT ![Ev.x] = "aborted"]
+                /\ UNCHANGED <<phase, guard, pst, starts, endhow, cleanleft, adoptret, sigint, shut, result, h, where, xobs, segopen, marks>>
+                /\ nc' = (nc \/ ~ExecAbort(Ev.x))
 \* a blocking execute() of a coroutine payload issued from inside a payload of the SAME
 \* flavour cannot be served (its own loop thread would have to wait for itself): the framework
 \* refuses it with an exception and the payload is never started
@@ -190,7 +196,7 @@ TMark == /\ Ev.e \in {"Quiescent", "Timeout", "Block", "CleanupDone"}
 
 TraceNext == Step_ /\ (TAdoptCall \/ TAdoptRet \/ TSvcNew \/ TStart \/ TStep \/ TEnd \/ TCancelled \/ TCleanupStep
                        \/ TAcceptCall \/ TRunningSet \/ TCloseBegin \/ TCloseEnd \/ TAcceptRet \/ TSigint
-                       \/ TShutdownCall \/ TShutdownRet \/ TExecCall \/ TXStart \/ TXEnd \/ TExecRet \/ TExecRefused \/ TSvcLoopExit \/ TSeg \/ TMark)
+                       \/ TShutdownCall \/ TShutdownRet \/ TExecCall \/ TXStart \/ TXEnd \/ TExecRet \/ TExecAborted \/ TExecRefused \/ TSvcLoopExit \/ TSeg \/ TMark)
 TraceSpec == TraceInit /\ [][TraceNext]_tvars
 
 -----------------------------------------------------------------------------
